@@ -655,6 +655,8 @@ func (e *Env) call(n ECall) SV {
 		e.fail("len of a value that has no length")
 	case "fnresult":
 		return e.fnResult(n)
+	case "fnapply":
+		return e.fnApply(n) // fnapply.go (w-c05)
 	case "lastcall":
 		return e.lastCall(n)
 	case "fnval":
